@@ -1,19 +1,28 @@
 ------------------------------- MODULE Beanquery -------------------------------
 (***************************************************************************)
 (* API grain: one connection as its users see it.  Composes the statement   *)
-(* semantics (BQLSelect: Compile / Exec) with the cursor protocol (Cursor): *)
-(*   execute(c, q)   compile q against the connection's table; a rejected    *)
-(*                   statement raises and leaves the cursor untouched; an    *)
-(*                   accepted one replaces result / description / position   *)
-(*   fetchone / fetchmany(n) / fetchall / iterate    as in Cursor.tla, but   *)
-(*                   delivering the actual rows Exec produced                *)
-(* The mechanism-grain modules refine the atomic `Exec` into the steps the   *)
+(* semantics (BQLSelect: Run = Compile / Exec with wildcard and nesting)    *)
+(* with the cursor protocol (Cursor) and the connection's table registry:   *)
+(*   register(n, t)  conn.tables[n] = t: a new name or a replacement, with   *)
+(*                   whatever columns and rows; cursors keep what they have  *)
+(*   execute(c, q, n) compile q against the table CURRENTLY registered as n; *)
+(*                   an unknown name or a rejected statement raises and      *)
+(*                   leaves the cursor untouched; an accepted one replaces   *)
+(*                   result / description / position                         *)
+(*   fetchone / fetchmany(k) / fetchall    as in Cursor.tla, but delivering  *)
+(*                   the actual rows Run produced                            *)
+(* A statement is a value: executing the same statement again - on another   *)
+(* cursor, after other statements, after the table was replaced - gives what  *)
+(* Run gives for (statement, table registered now), nothing else.            *)
+(* The mechanism-grain modules refine the atomic `Run` into the steps the    *)
 (* code takes; this module is what every recorder's `execute` / `fetch*`     *)
 (* events are finally checked against (Trace_Beanquery).                     *)
 (***************************************************************************)
 EXTENDS BQLSelect
 
-CONSTANTS NCursors, Sch, Table, Queries, FetchSizes
+CONSTANTS NCursors, TableNames, TableValues, Queries, FetchSizes,
+          Variant      \* "shipped" | "cachebyname" (a per-connection compile cache keyed by the table NAME: must be refuted)
+\* a table value: [sch |-> [column -> type], cols |-> <<declaration order>>, rows |-> <<[column -> value]>>]
 
 Cursors == 1..NCursors
 Min(a, b) == IF a < b THEN a ELSE b
@@ -21,12 +30,16 @@ EncV(x) == <<x.t, x.n, x.d, x.s>>
 EncRows(rs) == [a \in 1..Len(rs) |-> [b \in 1..Len(rs[a]) |-> EncV(rs[a][b])]]
 
 VARIABLES
+    tables,                                      \* name -> <<>> (not registered) | <<table value>>
     executed, result, buf, pos, desc, fetched,   \* per cursor, as in Cursor.tla (rows are real rows here)
-    out                                          \* [op, c, val, err]
+    out,                                         \* [op, c, val, err]
+    cache                                        \* variant "cachebyname" only: name -> the table value first compiled against
 
-vars == <<executed, result, buf, pos, desc, fetched, out>>
+cvars == <<executed, result, buf, pos, desc, fetched>>
+vars == <<tables, executed, result, buf, pos, desc, fetched, out, cache>>
 
 Init ==
+    /\ tables = [n \in TableNames |-> <<>>]
     /\ executed = [c \in Cursors |-> FALSE]
     /\ result = [c \in Cursors |-> <<>>]
     /\ buf = [c \in Cursors |-> <<>>]
@@ -34,36 +47,50 @@ Init ==
     /\ desc = [c \in Cursors |-> <<>>]
     /\ fetched = [c \in Cursors |-> <<>>]
     /\ out = [op |-> "init", c |-> 0, val |-> <<>>, err |-> ""]
+    /\ cache = [n \in TableNames |-> <<>>]
 
-Description(cq) == [j \in 1..cq.nvis |-> <<cq.ts[j].name, TypeOf(cq.ts[j].e, Sch)>>]
+Register(n, tv) ==
+    /\ tables' = [tables EXCEPT ![n] = <<tv>>]
+    /\ out' = [op |-> "register", c |-> 0, val |-> <<>>, err |-> ""]
+    /\ UNCHANGED <<cvars, cache>>
 
-Execute(c, q) ==
-    LET cq == Compile(q, Sch) IN
-    IF ~cq.ok
-    THEN /\ out' = [op |-> "execute", c |-> c, val |-> <<>>, err |-> "CompilationError"]
-         /\ UNCHANGED <<executed, result, buf, pos, desc, fetched>>
-    ELSE LET rows == Exec(q, cq, Table, Sch) IN
-         /\ executed' = [executed EXCEPT ![c] = TRUE]
-         /\ result' = [result EXCEPT ![c] = rows]
-         /\ buf' = [buf EXCEPT ![c] = rows]
-         /\ pos' = [pos EXCEPT ![c] = 0]
-         /\ desc' = [desc EXCEPT ![c] = Description(cq)]
-         /\ fetched' = [fetched EXCEPT ![c] = <<>>]
-         /\ out' = [op |-> "execute", c |-> c, val |-> <<>>, err |-> ""]
+\* what executing q against the table registered as n gives right now
+Outcome(q, n) ==
+    IF n \notin DOMAIN tables \/ tables[n] = <<>>
+    THEN [ok |-> FALSE, err |-> "no such table", ood |-> FALSE, names |-> <<>>, types |-> <<>>, rows |-> <<>>]
+    ELSE LET tv == IF Variant = "cachebyname" /\ cache[n] # <<>> THEN cache[n][1] ELSE tables[n][1] IN Run(q, tv.rows, tv.sch, tv.cols)
+DescOf(r) == [j \in 1..Len(r.names) |-> <<r.names[j], r.types[j]>>]
+
+Execute(c, q, n) ==
+    LET r == Outcome(q, n) IN
+    /\ ~r.ood                                    \* outside the exact-value domain: not modelled
+    /\ UNCHANGED tables
+    /\ cache' = IF Variant = "cachebyname" /\ n \in DOMAIN tables /\ tables[n] # <<>> /\ cache[n] = <<>> THEN [cache EXCEPT ![n] = tables[n]] ELSE cache
+    /\ IF ~r.ok
+       THEN /\ out' = [op |-> "execute", c |-> c, val |-> <<>>, err |-> "CompilationError"]
+            /\ UNCHANGED cvars
+       ELSE /\ executed' = [executed EXCEPT ![c] = TRUE]
+            /\ result' = [result EXCEPT ![c] = r.rows]
+            /\ buf' = [buf EXCEPT ![c] = r.rows]
+            /\ pos' = [pos EXCEPT ![c] = 0]
+            /\ desc' = [desc EXCEPT ![c] = DescOf(r)]
+            /\ fetched' = [fetched EXCEPT ![c] = <<>>]
+            /\ out' = [op |-> "execute", c |-> c, val |-> <<>>, err |-> ""]
 
 Deliver(c, m, op) ==
     /\ out' = [op |-> op, c |-> c, val |-> SubSeq(buf[c], 1, m), err |-> ""]
     /\ buf' = [buf EXCEPT ![c] = SubSeq(buf[c], m + 1, Len(buf[c]))]
     /\ pos' = [pos EXCEPT ![c] = @ + m]
     /\ fetched' = [fetched EXCEPT ![c] = @ \o SubSeq(buf[c], 1, m)]
-    /\ UNCHANGED <<executed, result, desc>>
+    /\ UNCHANGED <<tables, executed, result, desc, cache>>
 FetchOne(c) == Deliver(c, Min(1, Len(buf[c])), "fetchone")
 FetchMany(c, k) == Deliver(c, Min(k, Len(buf[c])), "fetchmany")
 FetchAll(c) == Deliver(c, Len(buf[c]), "fetchall")
 
 Next ==
-    \E c \in Cursors :
-        \/ \E q \in Queries : Execute(c, q)
+    \/ \E n \in TableNames, tv \in TableValues : Register(n, tv)
+    \/ \E c \in Cursors :
+        \/ \E q \in Queries, n \in TableNames : Execute(c, q, n)
         \/ FetchOne(c)
         \/ \E k \in FetchSizes : FetchMany(c, k)
         \/ FetchAll(c)
@@ -79,9 +106,15 @@ ShapeInv == \A c \in Cursors : \A r \in 1..Len(result[c]) :
                 /\ \A j \in 1..Len(desc[c]) : result[c][r][j].t = "ood" \/ Conforms(result[c][r][j], desc[c][j][2])
 \* a rejected statement changes nothing (history independence of failures)
 RejectedChangesNothing ==
-    [][(out'.err # "" ) => UNCHANGED <<executed, result, buf, pos, desc, fetched>>]_vars
-\* the result of execute depends on the statement and the data only, not on the cursor's history (C09)
+    [][(out'.err # "" ) => UNCHANGED <<tables, executed, result, buf, pos, desc, fetched>>]_vars
+\* registering or replacing a table never reaches into what a cursor already holds
+RegisterKeepsCursors == [][(out'.op = "register") => UNCHANGED cvars]_vars
+\* the result of execute depends on the statement and on the table registered under the name NOW, not on the
+\* connection's history: earlier statements, earlier versions of the table, other cursors (C09)
 HistoryIndependent ==
     [][\A c \in Cursors : (out'.op = "execute" /\ out'.c = c /\ out'.err = "") =>
-          \E q \in Queries : Compile(q, Sch).ok /\ result'[c] = Exec(q, Compile(q, Sch), Table, Sch)]_vars
+          \E q \in Queries, n \in TableNames :
+              /\ tables[n] # <<>>
+              /\ LET r == Run(q, tables[n][1].rows, tables[n][1].sch, tables[n][1].cols) IN
+                 r.ok /\ result'[c] = r.rows /\ desc'[c] = DescOf(r)]_vars
 =============================================================================
